@@ -25,6 +25,7 @@ CONSTANTS
   Ranges,                  \* set of <<lo, up>> ranges positions may be opened over
   LiqUnits, Amounts,       \* liquidity deltas and swap amounts drawn by the environment
   StartGrowth,             \* set of initial values of the fee-growth accumulators
+  Limits, Thresholds,      \* price limits (0 = none) and slippage thresholds (-1 = vacuous) a trader may give
   MaxOps                   \* bound on the number of operations (CONSTRAINT)
 
 Ticks == MinTick..MaxTick
@@ -252,7 +253,8 @@ Next ==
      \/ \E i \in PosIds, u \in Users, d \in LiqUnits : Modify(i, u, d) \/ Modify(i, u, -d)
      \/ \E i \in PosIds, u \in Users : Modify(i, u, 0)
      \/ \E i \in PosIds, u \in Users : CollectFees(i, u)
-     \/ \E u \in Traders, a \in Amounts, e \in BOOLEAN, d \in BOOLEAN : Swap(u, a, IF e THEN 0 ELSE 1000000, 0, e, d)
+     \/ \E u \in Traders, a \in Amounts, e \in BOOLEAN, d \in BOOLEAN, lm \in Limits, th \in Thresholds :
+           Swap(u, a, IF th = -1 THEN (IF e THEN 0 ELSE 1000000) ELSE th, lm, e, d)
      \/ CollectProtocol
 
 Spec == Init /\ [][Next]_vars
